@@ -1,6 +1,9 @@
 (** Proofs about model/Tabs.v (C16): the cached implementation model refines the cache-free
-    reference for every history; consequences (no TAB, getters, invariant). *)
+    reference for every history and every environment; consequences (no TAB, getters,
+    invariant).  The statement vocabulary ([notab], [inv], [out_notab], [op_ok], [env_ok], ...)
+    is defined in model/Tabs.v. *)
 From IndModel Require Import Base Tabs.
+From IndModel Require Padded.
 From IndGen Require Import Constants.
 From Coq Require Import NArith Lia List Bool.
 Open Scope N_scope.
@@ -35,8 +38,9 @@ Proof.
   rewrite N.eqb_sym in Hc. rewrite Hc. cbn [app]. f_equal. apply IH. exact Hs.
 Qed.
 
-Lemma expand_no_tab s w : ~ In TAB (expand s w).
+Lemma expand_no_tab s w : notab (expand s w).
 Proof.
+  unfold notab.
   induction s as [|c s IH]; [intros []|]. rewrite expand_cons. intros H.
   apply in_app_or in H. destruct H as [H | H]; [| exact (IH H)].
   destruct (c =? TAB) eqn:E.
@@ -44,8 +48,14 @@ Proof.
   - destruct H as [H | []]. subst c. rewrite N.eqb_refl in E. discriminate.
 Qed.
 
-Lemma has_tab_in s : has_tab s = false -> ~ In TAB s.
+Lemma has_tab_in s : has_tab s = false -> notab s.
 Proof. intros H. rewrite <- (expand_notab s 0 H). apply expand_no_tab. Qed.
+
+Lemma notab_has_tab s : notab s -> has_tab s = false.
+Proof.
+  unfold notab, has_tab. intros H. destruct (existsb (N.eqb TAB) s) eqn:E; [| reflexivity].
+  apply existsb_exists in E. destruct E as [x [Hx Ex]]. apply N.eqb_eq in Ex. subst x. contradiction.
+Qed.
 
 (** ** relation between a TabExpandedString and the original text it stands for *)
 Definition tes_rel (w : N) (t : tes) (s : text) : Prop :=
@@ -82,19 +92,16 @@ Qed.
 Definition part_rel (w : N) (p : part) (q : tpl) : Prop :=
   match p, q with
   | PLit t, TLit s => tes_rel w t s
-  | PMsg, TMsg => True
-  | PPrefix, TPrefix => True
   | PNewLine, TNewLine => True
-  | POpaque, TOpaque => True
-  | PKey k, TKey k' => k = k'
+  | PPh h, TPh h' => h = h'
   | _, _ => False
   end.
 Definition part_self (p : part) (q : tpl) : Prop := exists w, part_rel w p q.
 
-Definition style_rel (w : N) (st : style) (keys : keymap) (t : list tpl) : Prop :=
-  s_tw st = w /\ s_keys st = keys /\ Forall2 (part_rel w) (s_parts st) t.
-Definition style_self (st : style) (keys : keymap) (t : list tpl) : Prop :=
-  s_keys st = keys /\ Forall2 part_self (s_parts st) t.
+Definition style_rel (w : N) (st : style) (keys : keymap) (g : glyphs) (t : list tpl) : Prop :=
+  s_tw st = w /\ s_keys st = keys /\ s_gl st = g /\ Forall2 (part_rel w) (s_parts st) t.
+Definition style_self (st : style) (keys : keymap) (g : glyphs) (t : list tpl) : Prop :=
+  s_keys st = keys /\ s_gl st = g /\ Forall2 part_self (s_parts st) t.
 
 Lemma part_of_tpl_self q : part_self (part_of_tpl q) q.
 Proof.
@@ -104,11 +111,11 @@ Qed.
 Lemma map_part_of_tpl_self t : Forall2 part_self (map part_of_tpl t) t.
 Proof. induction t as [|q t IH]; cbn [map]; constructor; [apply part_of_tpl_self | exact IH]. Qed.
 
-Lemma style_new_self keys t : style_self (style_new keys t) keys t.
-Proof. split; [reflexivity | apply map_part_of_tpl_self]. Qed.
+Lemma style_new_self keys g t : style_self (style_new keys g t) keys g t.
+Proof. split; [reflexivity | split; [reflexivity | apply map_part_of_tpl_self]]. Qed.
 
-Lemma style_template_self st t : style_self (style_template st t) (s_keys st) t.
-Proof. split; [reflexivity | apply map_part_of_tpl_self]. Qed.
+Lemma style_template_self st t : style_self (style_template st t) (s_keys st) (s_gl st) t.
+Proof. split; [reflexivity | split; [reflexivity | apply map_part_of_tpl_self]]. Qed.
 
 Lemma part_set_tw_rel w p q : part_self p q -> part_rel w (part_set_tw w p) q.
 Proof.
@@ -116,23 +123,24 @@ Proof.
   eapply tes_set_tw_rel; exact H.
 Qed.
 
-Lemma style_set_tw_rel st keys t w : style_self st keys t -> style_rel w (style_set_tw st w) keys t.
+Lemma style_set_tw_rel st keys g t w : style_self st keys g t -> style_rel w (style_set_tw st w) keys g t.
 Proof.
-  intros [Hk Hp]. split; [reflexivity|]. split; [exact Hk|]. cbn [style_set_tw s_parts].
+  intros [Hk [Hg Hp]]. split; [reflexivity|]. split; [exact Hk|]. split; [exact Hg|].
+  cbn [style_set_tw s_parts].
   induction Hp as [|p q ps qs Hpq _ IH]; cbn [map]; constructor; [apply part_set_tw_rel; exact Hpq | exact IH].
 Qed.
 
-Lemma style_rel_self w st keys t : style_rel w st keys t -> style_self st keys t.
+Lemma style_rel_self w st keys g t : style_rel w st keys g t -> style_self st keys g t.
 Proof.
-  intros [_ [Hk Hp]]. split; [exact Hk|].
+  intros [_ [Hk [Hg Hp]]]. split; [exact Hk|]. split; [exact Hg|].
   induction Hp as [|p q ps qs Hpq _ IH]; constructor; [exists w; exact Hpq | exact IH].
 Qed.
 
 (** ** the simulation relation *)
-Definition saved_rel (a : option style) (b : option (keymap * list tpl)) : Prop :=
+Definition saved_rel (a : option style) (b : option (keymap * glyphs * list tpl)) : Prop :=
   match a, b with
   | None, None => True
-  | Some st, Some (k, t) => style_self st k t
+  | Some st, Some (k, g, t) => style_self st k g t
   | _, _ => False
   end.
 
@@ -140,194 +148,271 @@ Definition R (b : bar) (r : rbar) : Prop :=
   b_tw b = r_tw r
   /\ tes_rel (r_tw r) (b_msg b) (r_msg r)
   /\ tes_rel (r_tw r) (b_prefix b) (r_prefix r)
-  /\ style_rel (r_tw r) (b_style b) (r_keys r) (r_tpl r)
-  /\ saved_rel (b_saved b) (r_saved r).
+  /\ style_rel (r_tw r) (b_style b) (r_keys r) (r_gl r) (r_tpl r)
+  /\ saved_rel (b_saved b) (r_saved r)
+  /\ b_tick b = r_tick r /\ b_status b = r_status r /\ b_onfin b = r_onfin r /\ b_draws b = r_draws r.
 
 Lemma R_init : R bar_init rbar_init.
 Proof.
-  unfold R, bar_init, rbar_init. cbn [b_tw r_tw b_msg r_msg b_prefix r_prefix b_style r_keys r_tpl b_saved r_saved].
+  unfold R, bar_init, rbar_init.
+  cbn [b_tw r_tw b_msg r_msg b_prefix r_prefix b_style r_keys r_gl r_tpl b_saved r_saved
+       b_tick r_tick b_status r_status b_onfin r_onfin b_draws r_draws].
   repeat split; try reflexivity.
-  apply (style_set_tw_rel (style_new [] default_tpl) [] default_tpl DEFAULT_TAB_WIDTH (style_new_self _ _)).
+  apply (style_set_tw_rel (style_new [] default_glyphs default_tpl) [] default_glyphs default_tpl
+                          DEFAULT_TAB_WIDTH (style_new_self _ _ _)).
 Qed.
 
 (** ** rendering *)
-Lemma fmt_parts_sim r : forall ps tp, Forall2 (part_rel (r_tw r)) ps tp -> forall f,
-  tes_rel (r_tw r) (f_msg f) (r_msg r) -> tes_rel (r_tw r) (f_prefix f) (r_prefix r) ->
-  Forall2 (part_rel (r_tw r)) (snd (fmt_parts (r_tw r) (r_keys r) f ps)) tp
-  /\ tes_rel (r_tw r) (f_msg (fst (fmt_parts (r_tw r) (r_keys r) f ps))) (r_msg r)
-  /\ tes_rel (r_tw r) (f_prefix (fst (fmt_parts (r_tw r) (r_keys r) f ps))) (r_prefix r)
-  /\ ref_fmt r tp (f_cur f) (f_lines f) (f_opaque f)
-     = (f_cur (fst (fmt_parts (r_tw r) (r_keys r) f ps)),
-        f_lines (fst (fmt_parts (r_tw r) (r_keys r) f ps)),
-        f_opaque (fst (fmt_parts (r_tw r) (r_keys r) f ps))).
+Lemma push_line_sim c w f msg : tes_rel w (f_msg f) msg ->
+  tes_rel w (f_msg (push_line c f)) msg
+  /\ f_prefix (push_line c f) = f_prefix f
+  /\ f_cur (push_line c f) = []
+  /\ f_lines (push_line c f) = ref_push c (expand msg w) (f_cur f) (f_lines f) (f_wide f)
+  /\ f_wide (push_line c f) = f_wide f.
 Proof.
-  induction 1 as [|p q ps tp Hpq Hrest IH]; intros f Hm Hp.
+  intros Hm. unfold push_line, ref_push. destruct (f_wide f) as [|alt|a] eqn:Ew.
+  - cbn [f_msg f_prefix f_cur f_lines f_wide]. auto.
+  - cbn [f_msg f_prefix f_cur f_lines f_wide]. auto.
+  - destruct (tes_expanded_rel _ _ _ Hm) as [He Ht].
+    destruct (tes_expanded (f_msg f)) as [e m']. cbn [fst snd] in He, Ht. subst e.
+    cbn [f_msg f_prefix f_cur f_lines f_wide]. auto.
+Qed.
+
+Lemma fmt_parts_sim c w msg pre : c_tw c = w ->
+  forall ps tp, Forall2 (part_rel w) ps tp -> forall f,
+  tes_rel w (f_msg f) msg -> tes_rel w (f_prefix f) pre ->
+  Forall2 (part_rel w) (snd (fmt_parts c f ps)) tp
+  /\ tes_rel w (f_msg (fst (fmt_parts c f ps))) msg
+  /\ tes_rel w (f_prefix (fst (fmt_parts c f ps))) pre
+  /\ ref_fmt c (expand msg w) (expand pre w) tp (f_cur f) (f_lines f) (f_wide f)
+     = (f_cur (fst (fmt_parts c f ps)), f_lines (fst (fmt_parts c f ps)), f_wide (fst (fmt_parts c f ps))).
+Proof.
+  intros Hc. induction 1 as [|p q ps tp Hpq Hrest IH]; intros f Hm Hp.
   - cbn [fmt_parts fst snd ref_fmt]. repeat split; [constructor | assumption | assumption].
   - cbn [fmt_parts].
-    destruct (fmt_part (r_tw r) (r_keys r) f p) as [f1 p1] eqn:E1.
-    assert (H1 : part_rel (r_tw r) p1 q
-                 /\ tes_rel (r_tw r) (f_msg f1) (r_msg r) /\ tes_rel (r_tw r) (f_prefix f1) (r_prefix r)
-                 /\ ref_fmt r (q :: tp) (f_cur f) (f_lines f) (f_opaque f)
-                    = ref_fmt r tp (f_cur f1) (f_lines f1) (f_opaque f1)).
-    { destruct p as [t| | |k| |], q as [s| | |k'| |]; cbn [part_rel] in Hpq; try contradiction;
+    destruct (fmt_part c f p) as [f1 p1] eqn:E1.
+    assert (H1 : part_rel w p1 q
+                 /\ tes_rel w (f_msg f1) msg /\ tes_rel w (f_prefix f1) pre
+                 /\ ref_fmt c (expand msg w) (expand pre w) (q :: tp) (f_cur f) (f_lines f) (f_wide f)
+                    = ref_fmt c (expand msg w) (expand pre w) tp (f_cur f1) (f_lines f1) (f_wide f1)).
+    { destruct p as [t| |h], q as [s| |h']; cbn [part_rel] in Hpq; try contradiction;
         cbn [fmt_part] in E1.
-      - destruct (tes_expanded_rel _ _ _ Hpq) as [He Ht].
+      - (* literal *)
+        destruct (tes_expanded_rel _ _ _ Hpq) as [He Ht].
         destruct (tes_expanded t) as [e t']. cbn [fst snd] in He, Ht. inversion E1; subst f1 p1.
-        cbn [part_rel f_msg f_prefix f_cur f_lines f_opaque ref_fmt]. rewrite He. auto.
-      - destruct (tes_expanded_rel _ _ _ Hm) as [He Ht].
-        destruct (tes_expanded (f_msg f)) as [e t']. cbn [fst snd] in He, Ht. inversion E1; subst f1 p1.
-        cbn [part_rel f_msg f_prefix f_cur f_lines f_opaque ref_fmt]. rewrite He. auto.
-      - destruct (tes_expanded_rel _ _ _ Hp) as [He Ht].
-        destruct (tes_expanded (f_prefix f)) as [e t']. cbn [fst snd] in He, Ht. inversion E1; subst f1 p1.
-        cbn [part_rel f_msg f_prefix f_cur f_lines f_opaque ref_fmt]. rewrite He. auto.
-      - inversion E1; subst f1 p1 k'.
-        cbn [part_rel f_msg f_prefix f_cur f_lines f_opaque ref_fmt]. auto.
-      - inversion E1; subst f1 p1. unfold push_line.
-        cbn [part_rel f_msg f_prefix f_cur f_lines f_opaque ref_fmt]. auto.
-      - inversion E1; subst f1 p1.
-        cbn [part_rel f_msg f_prefix f_cur f_lines f_opaque ref_fmt]. auto. }
+        cbn [part_rel f_msg f_prefix f_cur f_lines f_wide ref_fmt]. rewrite He, Hc. auto.
+      - (* newline *)
+        inversion E1; subst f1 p1.
+        destruct (push_line_sim c w f msg Hm) as [A [B [C [D E]]]].
+        cbn [part_rel ref_fmt]. rewrite B, C, D, E. auto.
+      - (* placeholder *)
+        subst h'. destruct (p_key h) eqn:Ek.
+        + destruct (tes_expanded_rel _ _ _ Hm) as [He Ht].
+          destruct (tes_expanded (f_msg f)) as [e t']. cbn [fst snd] in He, Ht. inversion E1; subst f1 p1.
+          cbn [part_rel f_msg f_prefix f_cur f_lines f_wide ref_fmt]. rewrite Ek, He.
+          unfold wide_of. rewrite Ek. auto.
+        + destruct (tes_expanded_rel _ _ _ Hp) as [He Ht].
+          destruct (tes_expanded (f_prefix f)) as [e t']. cbn [fst snd] in He, Ht. inversion E1; subst f1 p1.
+          cbn [part_rel f_msg f_prefix f_cur f_lines f_wide ref_fmt]. rewrite Ek, He.
+          unfold wide_of. rewrite Ek. auto.
+        + inversion E1; subst f1 p1. cbn [part_rel f_msg f_prefix f_cur f_lines f_wide ref_fmt]. rewrite Ek. auto.
+        + inversion E1; subst f1 p1. cbn [part_rel f_msg f_prefix f_cur f_lines f_wide ref_fmt]. rewrite Ek. auto.
+        + inversion E1; subst f1 p1. cbn [part_rel f_msg f_prefix f_cur f_lines f_wide ref_fmt]. rewrite Ek. auto.
+        + inversion E1; subst f1 p1. cbn [part_rel f_msg f_prefix f_cur f_lines f_wide ref_fmt]. rewrite Ek. auto.
+        + inversion E1; subst f1 p1. cbn [part_rel f_msg f_prefix f_cur f_lines f_wide ref_fmt]. rewrite Ek. auto.
+        + inversion E1; subst f1 p1. cbn [part_rel f_msg f_prefix f_cur f_lines f_wide ref_fmt]. rewrite Ek. auto. }
     destruct H1 as [Hp1 [Hm1 [Hx1 Href]]].
     specialize (IH f1 Hm1 Hx1).
-    destruct (fmt_parts (r_tw r) (r_keys r) f1 ps) as [f2 r2]. cbn [fst snd] in *.
+    destruct (fmt_parts c f1 ps) as [f2 r2]. cbn [fst snd] in *.
     destruct IH as [IHa [IHb [IHc IHd]]].
     repeat split; [constructor; assumption | assumption | assumption | rewrite Href; exact IHd].
 Qed.
 
-Lemma format_state_sim b r : R b r ->
-  R (fst (format_state b)) r /\ snd (format_state b) = ref_render r.
+Definition rbar_drawn (r : rbar) : rbar :=
+  mkrbar (r_tw r) (r_msg r) (r_prefix r) (r_keys r) (r_gl r) (r_tpl r) (r_saved r)
+         (r_tick r) (r_status r) (r_onfin r) (r_draws r + 1).
+
+Lemma format_state_sim E b r : R b r ->
+  R (fst (format_state E b)) (rbar_drawn r) /\ snd (format_state E b) = ref_lines E r.
 Proof.
-  intros [Htw [Hm [Hp [[Hstw [Hsk Hsp]] Hsv]]]].
-  unfold format_state, ref_render. rewrite Hstw, Hsk.
-  pose proof (fmt_parts_sim r _ _ Hsp (mkfmt (b_msg b) (b_prefix b) [] [] false) Hm Hp) as H.
-  cbn [f_msg f_prefix f_cur f_lines f_opaque] in H.
-  destruct (fmt_parts (r_tw r) (r_keys r) (mkfmt (b_msg b) (b_prefix b) [] [] false) (s_parts (b_style b))) as [f ps'].
+  intros [Htw [Hm [Hp [[Hstw [Hsk [Hsg Hsp]]] [Hsv [Hti [Hst [Hof Hdr]]]]]]]].
+  unfold format_state, ref_lines, ref_ctx. rewrite Hstw, Hsk, Hsg, Hti, Hst, Hdr.
+  set (c := mkrctx E (r_draws r) (r_tw r) (r_keys r) (r_gl r) (r_tick r) (is_finished (r_status r))).
+  pose proof (fmt_parts_sim c (r_tw r) (r_msg r) (r_prefix r) eq_refl _ _ Hsp
+                            (mkfmt (b_msg b) (b_prefix b) [] [] WNone) Hm Hp) as H.
+  cbn [f_msg f_prefix f_cur f_lines f_wide] in H.
+  destruct (fmt_parts c (mkfmt (b_msg b) (b_prefix b) [] [] WNone) (s_parts (b_style b))) as [f ps'].
   cbn [fst snd] in H. destruct H as [Ha [Hb [Hc Hd]]]. rewrite Hd.
-  destruct (f_cur f) as [|c cur] eqn:Ec.
+  destruct (f_cur f) as [|x cur] eqn:Ec.
   - cbn [fst snd]. split; [| reflexivity].
-    unfold R. cbn [b_tw b_msg b_prefix b_style b_saved]. repeat split; assumption.
-  - unfold push_line. cbn [fst snd f_msg f_prefix f_lines f_opaque]. rewrite Ec. split; [| reflexivity].
-    unfold R. cbn [b_tw b_msg b_prefix b_style b_saved]. repeat split; assumption.
+    unfold R, rbar_drawn.
+    cbn [b_tw b_msg b_prefix b_style b_saved b_tick b_status b_onfin b_draws
+         r_tw r_msg r_prefix r_keys r_gl r_tpl r_saved r_tick r_status r_onfin r_draws].
+    repeat split; try assumption; try reflexivity.
+  - destruct (push_line_sim c (r_tw r) f (r_msg r) Hb) as [A [B [C [D F]]]].
+    cbn [fst snd]. rewrite D, Ec. split; [| reflexivity].
+    unfold R, rbar_drawn.
+    cbn [b_tw b_msg b_prefix b_style b_saved b_tick b_status b_onfin b_draws
+         r_tw r_msg r_prefix r_keys r_gl r_tpl r_saved r_tick r_status r_onfin r_draws].
+    rewrite B. repeat split; try assumption; try reflexivity.
 Qed.
 
-Lemma draw_sim b r : R b r ->
-  R (fst (draw b)) r /\ snd (draw b) = ODraw (ref_render r).
+Lemma render_sim E b r : R b r ->
+  R (fst (render E b)) (fst (ref_render E r)) /\ snd (render E b) = snd (ref_render E r).
 Proof.
-  intros H. destruct (format_state_sim b r H) as [H1 H2]. unfold draw.
-  destruct (format_state b) as [b' l]. cbn [fst snd] in *. subst l. auto.
+  intros HR. pose proof HR as [_ [_ [_ [_ [_ [_ [Hst _]]]]]]].
+  pose proof (format_state_sim E b r HR) as HF. unfold rbar_drawn in HF.
+  unfold render, ref_render. rewrite Hst.
+  destruct (r_status r); cbn [fst snd]; try exact HF.
+  split; [exact HR | reflexivity].
+Qed.
+
+Lemma draw_sim E b r : R b r ->
+  R (fst (draw E b)) (fst (ref_render E r)) /\ snd (draw E b) = ODraw [] (snd (ref_render E r)).
+Proof.
+  intros H. destruct (render_sim E b r H) as [H1 H2]. unfold draw.
+  destruct (render E b) as [b' l]. cbn [fst snd] in *. subst l. auto.
 Qed.
 
 (** ** every operation preserves the relation and produces the same output *)
+Ltac unfold_R :=
+  unfold R;
+  cbn [b_tw b_msg b_prefix b_style b_saved b_tick b_status b_onfin b_draws
+       r_tw r_msg r_prefix r_keys r_gl r_tpl r_saved r_tick r_status r_onfin r_draws].
+
 Lemma bar_set_tw_R b r n : R b r ->
-  R (bar_set_tw b n) (mkrbar n (r_msg r) (r_prefix r) (r_keys r) (r_tpl r) (r_saved r)).
+  R (bar_set_tw b n) (mkrbar n (r_msg r) (r_prefix r) (r_keys r) (r_gl r) (r_tpl r) (r_saved r)
+                            (r_tick r) (r_status r) (r_onfin r) (r_draws r)).
 Proof.
-  intros [Htw [Hm [Hp [Hs Hsv]]]]. unfold R, bar_set_tw.
-  cbn [b_tw b_msg b_prefix b_style b_saved r_tw r_msg r_prefix r_keys r_tpl r_saved].
+  intros [Htw [Hm [Hp [Hs [Hsv Hrest]]]]]. unfold bar_set_tw. unfold_R.
   split; [reflexivity|]. split; [eapply tes_set_tw_rel; exact Hm|].
-  split; [eapply tes_set_tw_rel; exact Hp|]. split; [| exact Hsv].
-  exact (style_set_tw_rel _ _ _ n (style_rel_self _ _ _ _ Hs)).
+  split; [eapply tes_set_tw_rel; exact Hp|]. split; [| split; [exact Hsv | exact Hrest]].
+  exact (style_set_tw_rel _ _ _ _ n (style_rel_self _ _ _ _ _ Hs)).
 Qed.
 
-Lemma bar_set_style_R b r st keys t : R b r -> style_self st keys t ->
-  R (bar_set_style b st) (mkrbar (r_tw r) (r_msg r) (r_prefix r) keys t (r_saved r)).
+Lemma bar_set_style_R b r st keys g t : R b r -> style_self st keys g t ->
+  R (bar_set_style b st) (mkrbar (r_tw r) (r_msg r) (r_prefix r) keys g t (r_saved r)
+                                 (r_tick r) (r_status r) (r_onfin r) (r_draws r)).
 Proof.
-  intros [Htw [Hm [Hp [Hs Hsv]]]] Hst. unfold R, bar_set_style.
-  cbn [b_tw b_msg b_prefix b_style b_saved r_tw r_msg r_prefix r_keys r_tpl r_saved].
-  rewrite Htw. repeat split; try assumption;
-    destruct (style_set_tw_rel _ _ _ (r_tw r) Hst) as [H1 [H2 H3]]; assumption.
+  intros [Htw [Hm [Hp [Hs [Hsv Hrest]]]]] Hst. unfold bar_set_style. unfold_R.
+  rewrite Htw. split; [reflexivity|]. split; [exact Hm|]. split; [exact Hp|].
+  split; [exact (style_set_tw_rel _ _ _ _ (r_tw r) Hst)|]. split; [exact Hsv | exact Hrest].
 Qed.
 
 Lemma bar_set_msg_R b r s : R b r ->
-  R (bar_set_msg b s) (mkrbar (r_tw r) s (r_prefix r) (r_keys r) (r_tpl r) (r_saved r)).
+  R (bar_set_msg b s) (mkrbar (r_tw r) s (r_prefix r) (r_keys r) (r_gl r) (r_tpl r) (r_saved r)
+                              (r_tick r) (r_status r) (r_onfin r) (r_draws r)).
 Proof.
-  intros [Htw [Hm [Hp [Hs Hsv]]]]. unfold R, bar_set_msg.
-  cbn [b_tw b_msg b_prefix b_style b_saved r_tw r_msg r_prefix r_keys r_tpl r_saved].
-  rewrite Htw. split; [reflexivity|]. split; [apply tes_new_rel|]. split; [exact Hp|]. split; [exact Hs | exact Hsv].
+  intros [Htw [Hm [Hp [Hs Hrest]]]]. unfold bar_set_msg. unfold_R.
+  rewrite Htw. split; [reflexivity|]. split; [apply tes_new_rel|]. split; [exact Hp|]. split; [exact Hs | exact Hrest].
 Qed.
 
 Lemma bar_set_prefix_R b r s : R b r ->
-  R (bar_set_prefix b s) (mkrbar (r_tw r) (r_msg r) s (r_keys r) (r_tpl r) (r_saved r)).
+  R (bar_set_prefix b s) (mkrbar (r_tw r) (r_msg r) s (r_keys r) (r_gl r) (r_tpl r) (r_saved r)
+                                 (r_tick r) (r_status r) (r_onfin r) (r_draws r)).
 Proof.
-  intros [Htw [Hm [Hp [Hs Hsv]]]]. unfold R, bar_set_prefix.
-  cbn [b_tw b_msg b_prefix b_style b_saved r_tw r_msg r_prefix r_keys r_tpl r_saved].
-  rewrite Htw. split; [reflexivity|]. split; [exact Hm|]. split; [apply tes_new_rel|]. split; [exact Hs | exact Hsv].
+  intros [Htw [Hm [Hp [Hs Hrest]]]]. unfold bar_set_prefix. unfold_R.
+  rewrite Htw. split; [reflexivity|]. split; [exact Hm|]. split; [apply tes_new_rel|]. split; [exact Hs | exact Hrest].
 Qed.
 
-Lemma step_sim b r o : R b r ->
-  R (fst (step b o)) (fst (ref_step r o)) /\ snd (step b o) = snd (ref_step r o).
+Lemma bar_tick_R b r : R b r -> R (bar_tick b) (rbar_tick r).
 Proof.
-  intros HR. destruct o as [n|n|keys t|t| | |s|s|s|s|s|s| |s| | ]; cbn [step ref_step].
-  - (* SetTabWidth *) apply draw_sim. apply bar_set_tw_R. exact HR.
+  intros [Htw [Hm [Hp [Hs [Hsv [Hti Hrest]]]]]]. unfold bar_tick, rbar_tick. unfold_R.
+  rewrite Hti. split; [exact Htw|]. split; [exact Hm|]. split; [exact Hp|]. split; [exact Hs|].
+  split; [exact Hsv|]. split; [reflexivity | exact Hrest].
+Qed.
+
+Lemma bar_finish_R b r f : R b r -> R (bar_finish b f) (rbar_finish r f).
+Proof.
+  intros HR.
+  assert (H0 : R (bar_set_status b (status_of_finish f))
+                 (mkrbar (r_tw r) (r_msg r) (r_prefix r) (r_keys r) (r_gl r) (r_tpl r) (r_saved r)
+                         (r_tick r) (status_of_finish f) (r_onfin r) (r_draws r))).
+  { destruct HR as [Htw [Hm [Hp [Hs [Hsv [Hti [Hst [Hof Hdr]]]]]]]]. unfold bar_set_status. unfold_R.
+    split; [exact Htw|]. split; [exact Hm|]. split; [exact Hp|]. split; [exact Hs|]. split; [exact Hsv|].
+    split; [exact Hti|]. split; [reflexivity|]. split; [exact Hof | exact Hdr]. }
+  unfold bar_finish, rbar_finish.
+  destruct f as [|s| | |s]; cbn [finish_msg]; try (destruct r; exact H0);
+    apply (bar_set_msg_R _ _ s) in H0; exact H0.
+Qed.
+
+Lemma step_sim E b r o : R b r ->
+  R (fst (step E b o)) (fst (ref_step E r o)) /\ snd (step E b o) = snd (ref_step E r o).
+Proof.
+  intros HR.
+  assert (Hdrawn : forall b' r', R b' r' ->
+            R (fst (draw E b')) (fst (let '(r'', l) := ref_render E r' in (r'', ODraw [] l)))
+            /\ snd (draw E b') = snd (let '(r'', l) := ref_render E r' in (r'', ODraw [] l))).
+  { intros b' r' H. destruct (draw_sim E b' r' H) as [H1 H2].
+    destruct (ref_render E r') as [r'' l]. cbn [fst snd] in *. auto. }
+  destruct o as [n|n|keys g t|t| | |s|s|s|s|s|s|f| | |s| | ]; cbn [step ref_step].
+  - (* SetTabWidth *) apply Hdrawn. apply bar_set_tw_R. exact HR.
   - cbn [fst snd]. split; [apply bar_set_tw_R; exact HR | reflexivity].
   - cbn [fst snd]. split; [apply bar_set_style_R; [exact HR | apply style_new_self] | reflexivity].
-  - cbn [fst snd]. split; [| reflexivity].
-    assert (Hk : s_keys (b_style b) = r_keys r) by (destruct HR as [_ [_ [_ [[_ [Hk _]] _]]]]; exact Hk).
-    rewrite <- Hk. apply bar_set_style_R; [exact HR | apply style_template_self].
+  - (* SetStyleDerived *) cbn [fst snd]. split; [| reflexivity].
+    assert (Hk : s_keys (b_style b) = r_keys r /\ s_gl (b_style b) = r_gl r)
+      by (destruct HR as [_ [_ [_ [[_ [Hk [Hg _]]] _]]]]; auto).
+    destruct Hk as [Hk Hg]. rewrite <- Hk, <- Hg. apply bar_set_style_R; [exact HR | apply style_template_self].
   - (* SaveStyle *) cbn [fst snd]. split; [| reflexivity].
-    destruct HR as [Htw [Hm [Hp [Hs Hsv]]]]. unfold R.
-    cbn [b_tw b_msg b_prefix b_style b_saved r_tw r_msg r_prefix r_keys r_tpl r_saved saved_rel].
-    split; [exact Htw|]. split; [exact Hm|]. split; [exact Hp|]. split; [exact Hs|].
+    destruct HR as [Htw [Hm [Hp [Hs [Hsv Hrest]]]]]. unfold bar_set_saved. unfold_R. cbn [saved_rel].
+    split; [exact Htw|]. split; [exact Hm|]. split; [exact Hp|]. split; [exact Hs|]. split; [| exact Hrest].
     eapply style_rel_self. exact Hs.
   - (* RestoreStyle *)
-    pose proof HR as [Htw [Hm [Hp [Hs Hsv]]]].
-    destruct (b_saved b) as [st|] eqn:Eb, (r_saved r) as [[k t]|] eqn:Er; cbn [saved_rel] in Hsv; try contradiction.
+    pose proof HR as [Htw [Hm [Hp [Hs [Hsv Hrest]]]]].
+    destruct (b_saved b) as [st|] eqn:Eb, (r_saved r) as [[[k g] t]|] eqn:Er; cbn [saved_rel] in Hsv; try contradiction.
     + cbn [fst snd]. split; [| reflexivity]. rewrite <- Er. apply bar_set_style_R; assumption.
     + cbn [fst snd]. split; [exact HR | reflexivity].
-  - apply draw_sim. apply bar_set_msg_R. exact HR.
-  - apply draw_sim. apply bar_set_prefix_R. exact HR.
+  - apply Hdrawn. apply bar_set_msg_R. exact HR.
+  - apply Hdrawn. apply bar_set_prefix_R. exact HR.
   - cbn [fst snd]. split; [apply bar_set_msg_R; exact HR | reflexivity].
   - cbn [fst snd]. split; [apply bar_set_prefix_R; exact HR | reflexivity].
-  - apply draw_sim. apply bar_set_msg_R. exact HR.
-  - apply draw_sim. apply bar_set_msg_R. exact HR.
-  - (* Tick *)
-    destruct (draw_sim b r HR) as [H1 H2]. destruct r; split; assumption.
+  - apply Hdrawn. apply bar_finish_R. exact HR.
+  - apply Hdrawn. apply bar_finish_R. exact HR.
+  - (* WithFinish *) cbn [fst snd]. split; [| reflexivity].
+    destruct HR as [Htw [Hm [Hp [Hs [Hsv [Hti [Hst [Hof Hdr]]]]]]]]. unfold bar_set_onfin. unfold_R.
+    split; [exact Htw|]. split; [exact Hm|]. split; [exact Hp|]. split; [exact Hs|]. split; [exact Hsv|].
+    split; [exact Hti|]. split; [exact Hst|]. split; [reflexivity | exact Hdr].
+  - (* FinishUsingStyle *)
+    assert (Hof : b_onfin b = r_onfin r) by (destruct HR as [_ [_ [_ [_ [_ [_ [_ [Hof _]]]]]]]]; exact Hof).
+    rewrite Hof. apply Hdrawn. apply bar_finish_R. exact HR.
+  - (* Tick *) apply Hdrawn. apply bar_tick_R. exact HR.
   - (* Println *)
-    destruct (format_state_sim b r HR) as [H1 H2].
-    destruct (format_state b) as [b' l]. cbn [fst snd] in *. subst l. split; [exact H1 | reflexivity].
+    destruct (render_sim E b r HR) as [H1 H2].
+    destruct (render E b) as [b' l], (ref_render E r) as [r' l']. cbn [fst snd] in *. subst l'. auto.
   - (* GetMessage *)
-    destruct HR as [Htw [Hm [Hp [Hs Hsv]]]].
+    destruct HR as [Htw [Hm [Hp [Hs Hrest]]]].
     destruct (tes_expanded_rel _ _ _ Hm) as [He Ht].
     destruct (tes_expanded (b_msg b)) as [e m']. cbn [fst snd] in *. subst e.
-    split; [| reflexivity]. unfold R. cbn [b_tw b_msg b_prefix b_style b_saved].
-    split; [exact Htw|]. split; [exact Ht|]. split; [exact Hp|]. split; [exact Hs | exact Hsv].
+    split; [| reflexivity]. unfold_R.
+    split; [exact Htw|]. split; [exact Ht|]. split; [exact Hp|]. split; [exact Hs | exact Hrest].
   - (* GetPrefix *)
-    destruct HR as [Htw [Hm [Hp [Hs Hsv]]]].
+    destruct HR as [Htw [Hm [Hp [Hs Hrest]]]].
     destruct (tes_expanded_rel _ _ _ Hp) as [He Ht].
     destruct (tes_expanded (b_prefix b)) as [e m']. cbn [fst snd] in *. subst e.
-    split; [| reflexivity]. unfold R. cbn [b_tw b_msg b_prefix b_style b_saved].
-    split; [exact Htw|]. split; [exact Hm|]. split; [exact Ht|]. split; [exact Hs | exact Hsv].
+    split; [| reflexivity]. unfold_R.
+    split; [exact Htw|]. split; [exact Hm|]. split; [exact Ht|]. split; [exact Hs | exact Hrest].
 Qed.
 
-Lemma run_sim ops : forall b r, R b r ->
-  R (fst (run b ops)) (fst (ref_run r ops)) /\ snd (run b ops) = snd (ref_run r ops).
+Lemma run_sim E ops : forall b r, R b r ->
+  R (fst (run E b ops)) (fst (ref_run E r ops)) /\ snd (run E b ops) = snd (ref_run E r ops).
 Proof.
   induction ops as [|o ops IH]; intros b r HR; cbn [run ref_run]; [split; [exact HR | reflexivity]|].
-  destruct (step_sim b r o HR) as [H1 H2].
-  destruct (step b o) as [b1 x], (ref_step r o) as [r1 y]. cbn [fst snd] in *. subst y.
+  destruct (step_sim E b r o HR) as [H1 H2].
+  destruct (step E b o) as [b1 x], (ref_step E r o) as [r1 y]. cbn [fst snd] in *. subst y.
   destruct (IH b1 r1 H1) as [H3 H4].
-  destruct (run b1 ops) as [b2 xs], (ref_run r1 ops) as [r2 ys]. cbn [fst snd] in *. subst ys.
+  destruct (run E b1 ops) as [b2 xs], (ref_run E r1 ops) as [r2 ys]. cbn [fst snd] in *. subst ys.
   split; [exact H3 | reflexivity].
 Qed.
 
-(** For every history the implementation model and the reference produce the same draws
-    and getter results. *)
-Theorem refines ops : snd (run bar_init ops) = snd (ref_run rbar_init ops).
-Proof. exact (proj2 (run_sim ops _ _ R_init)). Qed.
+(** For every history and every environment the implementation model and the reference
+    produce the same draws and getter results. *)
+Theorem refines E ops : snd (run E bar_init ops) = snd (ref_run E rbar_init ops).
+Proof. exact (proj2 (run_sim E ops _ _ R_init)). Qed.
 
-Theorem refines_state ops : R (fst (run bar_init ops)) (fst (ref_run rbar_init ops)).
-Proof. exact (proj1 (run_sim ops _ _ R_init)). Qed.
+Theorem refines_state E ops : R (fst (run E bar_init ops)) (fst (ref_run E rbar_init ops)).
+Proof. exact (proj1 (run_sim E ops _ _ R_init)). Qed.
 
-(** ** the cache invariant, stated on the implementation model alone *)
-Definition tes_ok (w : N) (t : tes) : Prop :=
-  match t with
-  | NoTabs s => has_tab s = false
-  | WithTabs o c tw => tw = w /\ (c = None \/ c = Some (expand o w))
-  end.
-Definition part_ok (w : N) (p : part) : Prop :=
-  match p with PLit t => tes_ok w t | _ => True end.
-Definition inv (b : bar) : Prop :=
-  tes_ok (b_tw b) (b_msg b) /\ tes_ok (b_tw b) (b_prefix b)
-  /\ s_tw (b_style b) = b_tw b /\ Forall (part_ok (b_tw b)) (s_parts (b_style b)).
-
+(** ** the cache invariant *)
 Lemma tes_rel_ok w t s : tes_rel w t s -> tes_ok w t.
 Proof.
   destruct t as [x | o c tw]; cbn [tes_rel tes_ok]; [intros [Hx Hs]; subst; exact Hs|].
@@ -336,19 +421,17 @@ Qed.
 
 Lemma R_inv b r : R b r -> inv b.
 Proof.
-  intros [Htw [Hm [Hp [[Hstw [_ Hsp]] _]]]]. unfold inv. rewrite Htw.
+  intros [Htw [Hm [Hp [[Hstw [_ [_ Hsp]]] _]]]]. unfold inv. rewrite Htw.
   repeat split; [eapply tes_rel_ok; exact Hm | eapply tes_rel_ok; exact Hp | exact Hstw |].
   induction Hsp as [|p q ps qs Hpq _ IH]; constructor; [| exact IH].
   destruct p, q; cbn [part_rel part_ok] in *; try exact I; try contradiction.
   eapply tes_rel_ok; exact Hpq.
 Qed.
 
-Theorem inv_reachable ops : inv (fst (run bar_init ops)).
+Theorem inv_reachable E ops : inv (fst (run E bar_init ops)).
 Proof. eapply R_inv. apply refines_state. Qed.
 
 (** ** no TAB in anything the reference renders *)
-Definition notab (s : text) : Prop := ~ In TAB s.
-
 Lemma split_nl_in s : forall l x, In l (split_nl s) -> In x l -> In x s.
 Proof.
   induction s as [|c s IH]; intros l x Hl Hx.
@@ -367,132 +450,333 @@ Proof.
   intros H. apply Forall_forall. intros l Hl Hx. apply H. eapply split_nl_in; eassumption.
 Qed.
 
+Lemma notab_nil : notab [].
+Proof. intros []. Qed.
+
 Lemma notab_app a b : notab a -> notab b -> notab (a ++ b).
 Proof. unfold notab. intros Ha Hb H. apply in_app_or in H. tauto. Qed.
 
+(* a text all of whose characters occur in TAB-free texts *)
+Lemma notab_incl a b : (forall x, In x a -> In x b) -> notab b -> notab a.
+Proof. unfold notab. intros Hi Hb H. apply Hb, Hi, H. Qed.
+
 Lemma chunks_text_notab w chunks : notab (chunks_text w chunks).
 Proof.
-  unfold chunks_text. induction chunks as [|c cs IH]; cbn [map concat]; [intros []|].
+  unfold chunks_text. induction chunks as [|c cs IH]; cbn [map concat]; [apply notab_nil|].
   apply notab_app; [apply expand_no_tab | exact IH].
 Qed.
 
 Lemma key_text_notab w m k : notab (key_text w m k).
-Proof. unfold key_text. destruct (key_lookup k m); [apply chunks_text_notab | intros []]. Qed.
+Proof. unfold key_text. destruct (key_lookup k m); [apply chunks_text_notab | apply notab_nil]. Qed.
 
-Lemma ref_fmt_notab r : forall ps cur lines opq,
-  notab cur -> Forall notab lines ->
-  let '(cur', lines', _) := ref_fmt r ps cur lines opq in notab cur' /\ Forall notab lines'.
+Lemma tab_spaces_notab n : notab (tab_spaces n).
+Proof. intros H. apply tab_spaces_in in H. discriminate H. Qed.
+
+(** padding and truncation: the result consists of characters of the content and spaces *)
+Lemma drop_bytes_in s : forall n t x, drop_bytes s n = Some t -> In x t -> In x s.
 Proof.
-  induction ps as [|p ps IH]; intros cur lines opq Hc Hl; cbn [ref_fmt]; [split; assumption|].
-  destruct p as [s| | |k| |].
-  - apply IH; [apply notab_app; [exact Hc | apply expand_no_tab] | exact Hl].
-  - apply IH; [apply notab_app; [exact Hc | apply expand_no_tab] | exact Hl].
-  - apply IH; [apply notab_app; [exact Hc | apply expand_no_tab] | exact Hl].
-  - apply IH; [apply notab_app; [exact Hc | apply key_text_notab] | exact Hl].
-  - apply IH; [intros [] | apply Forall_app; split; [exact Hl | apply split_nl_notab; exact Hc]].
-  - apply IH; assumption.
+  induction s as [|c s IH]; intros n t x H Hx; cbn [drop_bytes] in H.
+  - destruct (n =? 0); [inversion H; subst; exact Hx | discriminate].
+  - destruct (n =? 0); [inversion H; subst; exact Hx|].
+    destruct (n <? Padded.nbytes c); [discriminate|]. right. eapply IH; eassumption.
 Qed.
 
-Lemma ref_render_notab r : match ref_render r with Some ls => Forall notab ls | None => True end.
+Lemma take_bytes_in s : forall n t x, take_bytes s n = Some t -> In x t -> In x s.
 Proof.
-  unfold ref_render.
-  pose proof (ref_fmt_notab r (r_tpl r) [] [] false (fun H => H) (Forall_nil _)) as H.
-  destruct (ref_fmt r (r_tpl r) [] [] false) as [[cur lines] opq]. destruct H as [Hc Hl].
-  destruct opq; [exact I|]. destruct cur as [|c cur]; [exact Hl|].
-  apply Forall_app; split; [exact Hl | apply split_nl_notab; exact Hc].
+  induction s as [|c s IH]; intros n t x H Hx; cbn [take_bytes] in H.
+  - destruct (n =? 0); [inversion H; subst; destruct Hx | discriminate].
+  - destruct (n =? 0); [inversion H; subst; destruct Hx|].
+    destruct (n <? Padded.nbytes c); [discriminate|].
+    destruct (take_bytes s (n - Padded.nbytes c)) as [t'|] eqn:E; [| discriminate].
+    inversion H; subst. destruct Hx as [Hx | Hx]; [left; exact Hx | right; eapply IH; eassumption].
 Qed.
 
-(* println text is not a bar line; it is part of the recorded draw, so it must be TAB-free
-   for the statement "no TAB in the draw" *)
-Definition op_ok (o : op) : Prop :=
-  match o with Println s => has_tab s = false | _ => True end.
-Definition out_notab (x : out) : Prop :=
-  match x with
-  | ODraw (Some ls) => Forall notab ls
-  | ODraw None => True
-  | OGot s => notab s
-  | ONone => True
-  end.
-
-Lemma ref_step_notab r o : op_ok o -> out_notab (snd (ref_step r o)).
+Lemma str_get_in s st en t x : str_get s st en = Some t -> In x t -> In x s.
 Proof.
-  intros Ho. destruct o; cbn [ref_step snd out_notab]; try exact I;
-    try apply ref_render_notab; try apply expand_no_tab.
-  - destruct (r_saved r) as [[k t]|]; exact I.
-  - pose proof (ref_render_notab r) as H. destruct (ref_render r); [| exact I].
-    constructor; [apply has_tab_in; exact Ho | exact H].
+  unfold str_get. destruct (en <? st); [discriminate|].
+  destruct (drop_bytes s st) as [r|] eqn:E; [| discriminate].
+  intros H Hx. eapply drop_bytes_in; [exact E|]. eapply take_bytes_in; eassumption.
 Qed.
 
-Lemma ref_run_notab ops : forall r, Forall op_ok ops -> Forall out_notab (snd (ref_run r ops)).
+Theorem pad_text_notab cols s w a tr : notab s -> notab (pad_text cols s w a tr).
 Proof.
-  induction ops as [|o ops IH]; intros r Hf; cbn [ref_run]; [constructor|].
-  inversion Hf as [|? ? Ho Hr]; subst.
-  pose proof (ref_step_notab r o Ho) as H1.
-  destruct (ref_step r o) as [r1 x]. specialize (IH r1 Hr).
-  destruct (ref_run r1 ops) as [r2 xs]. cbn [snd] in *. constructor; assumption.
+  intros Hs. unfold pad_text.
+  destruct ((0 <? cols s - w) && negb tr); [exact Hs|].
+  destruct (0 <? cols s - w).
+  - destruct (Padded.trunc_range a (blen s) (cols s - w)) as [[st en]|]; [| exact Hs].
+    destruct (str_get s st en) as [t|] eqn:E; [| exact Hs].
+    eapply notab_incl; [| exact Hs]. intros x Hx. eapply str_get_in; eassumption.
+  - destruct (Padded.pad_split a (w - cols s)) as [l r].
+    apply notab_app; [apply tab_spaces_notab|]. apply notab_app; [exact Hs | apply tab_spaces_notab].
 Qed.
 
-Theorem no_tab ops : Forall op_ok ops -> Forall out_notab (snd (run bar_init ops)).
-Proof. intros H. rewrite refines. apply ref_run_notab. exact H. Qed.
+Lemma trim_end_in s x : In x (trim_end s) -> In x s.
+Proof.
+  induction s as [|c s IH]; [intros []|]. unfold trim_end. cbn [fold_right].
+  fold (trim_end s). destruct (trim_end s) as [|y ys] eqn:E.
+  - destruct (Padded.is_ws c); [intros [] | intros [H | []]; left; exact H].
+  - intros [H | H]; [left; exact H | right; apply IH; exact H].
+Qed.
+
+Theorem trim_end_notab s : notab s -> notab (trim_end s).
+Proof. apply notab_incl. intros x. apply trim_end_in. Qed.
+
+Lemma replace_nul_notab s x : notab s -> notab x -> notab (replace_nul s x).
+Proof.
+  intros Hs Hx. unfold replace_nul. induction s as [|c s IH]; cbn [flat_map]; [apply notab_nil|].
+  apply notab_app.
+  - destruct (c =? NUL); [exact Hx|]. intros [H | []]. apply Hs. left. exact H.
+  - apply IH. intros H. apply Hs. right. exact H.
+Qed.
+
+Lemma wrap_notab o x : sty_ok o -> notab x -> notab (wrap o x).
+Proof.
+  destruct o as [y|]; cbn [sty_ok wrap]; [| auto]. intros [H1 H2] Hx.
+  apply notab_app; [exact H1|]. apply notab_app; [exact Hx | exact H2].
+Qed.
+
+Lemma rep_notab x n : notab x -> notab (rep x n).
+Proof.
+  intros Hx. unfold rep. induction n as [|n IH] using N.peano_ind; [apply notab_nil|].
+  rewrite N.iter_succ. apply notab_app; assumption.
+Qed.
+
+Lemma nth_notab (l : list text) i : Forall notab l -> notab (nth i l []).
+Proof.
+  intros H. revert i. induction H as [|x l Hx _ IH]; intros [|i]; cbn [nth]; try apply notab_nil; auto.
+Qed.
+
+Lemma last_notab (l : list text) : Forall notab l -> notab (last l []).
+Proof.
+  induction 1 as [|x l Hx Hl IH]; [apply notab_nil|]. cbn [last]. destruct l; [exact Hx | exact IH].
+Qed.
+
+Lemma bar_text_notab g geo alt : Forall notab (g_pchars g) -> sty_ok alt -> notab (bar_text g geo alt).
+Proof.
+  intros Hg Ha. destruct geo as [[filled cur] bg]. unfold bar_text.
+  apply notab_app; [apply rep_notab, nth_notab, Hg|]. apply notab_app.
+  - destruct cur; [apply nth_notab, Hg | apply notab_nil].
+  - apply wrap_notab; [exact Ha | apply rep_notab, last_notab, Hg].
+Qed.
+
+Lemma tick_text_notab g tick fin : Forall notab (g_ticks g) -> notab (tick_text g tick fin).
+Proof. intros Hg. unfold tick_text. destruct fin; [apply last_notab | apply nth_notab]; exact Hg. Qed.
+
+Definition ctx_ok (c : rctx) : Prop := glyphs_ok (c_gl c) /\ env_ok (c_env c).
+
+Lemma static_buf_notab c h : ctx_ok c -> sty_ok (p_alt h) -> notab (static_buf c h).
+Proof.
+  intros [[Ht Hp] He] Ha. unfold static_buf. destruct (p_key h).
+  - apply notab_nil.
+  - apply notab_nil.
+  - intros [H | []]. discriminate H.
+  - intros [H | []]. discriminate H.
+  - unfold format_bar. apply bar_text_notab; assumption.
+  - apply tick_text_notab. exact Ht.
+  - apply He.
+  - apply key_text_notab.
+Qed.
+
+Lemma ph_post_notab c h buf : sty_ok (p_style h) -> notab buf -> notab (ph_post c h buf).
+Proof.
+  intros Hs Hb. unfold ph_post. apply wrap_notab; [exact Hs|].
+  destruct (p_width h); [apply pad_text_notab |]; exact Hb.
+Qed.
+
+Lemma wide_bar_line_notab c alt cur : ctx_ok c -> sty_ok alt -> notab cur -> notab (wide_bar_line c alt cur).
+Proof.
+  intros [[Ht Hp] He] Ha Hc. unfold wide_bar_line, format_bar.
+  apply replace_nul_notab; [exact Hc | apply bar_text_notab; assumption].
+Qed.
+
+Theorem wide_msg_line_notab c a emsg cur : notab emsg -> notab cur -> notab (wide_msg_line c a emsg cur).
+Proof.
+  intros Hm Hc. unfold wide_msg_line. apply replace_nul_notab; [exact Hc|].
+  destruct (ends_nul cur); [apply trim_end_notab|]; apply pad_text_notab; exact Hm.
+Qed.
+
+Definition wide_ok (w : wide) : Prop := match w with WBar alt => sty_ok alt | _ => True end.
+
+Lemma ref_push_notab c emsg cur lines w :
+  ctx_ok c -> notab emsg -> notab cur -> Forall notab lines -> wide_ok w ->
+  Forall notab (ref_push c emsg cur lines w).
+Proof.
+  intros Hc Hm Hcur Hl Hw. unfold ref_push. apply Forall_app. split; [exact Hl|].
+  apply split_nl_notab. destruct w as [|alt|a]; cbn [wide_ok] in Hw.
+  - exact Hcur.
+  - apply wide_bar_line_notab; assumption.
+  - apply wide_msg_line_notab; assumption.
+Qed.
+
+Lemma ref_fmt_notab c emsg epre : ctx_ok c -> notab emsg -> notab epre ->
+  forall ps cur lines w, Forall tpl_ok ps -> notab cur -> Forall notab lines -> wide_ok w ->
+  let '(cur', lines', w') := ref_fmt c emsg epre ps cur lines w in
+  notab cur' /\ Forall notab lines' /\ wide_ok w'.
+Proof.
+  intros Hc Hm Hp. induction ps as [|p ps IH]; intros cur lines w Hps Hcur Hl Hw; cbn [ref_fmt]; [auto|].
+  inversion Hps as [|? ? Hp0 Hps']; subst.
+  destruct p as [s| |h].
+  - apply IH; [exact Hps' | apply notab_app; [exact Hcur | apply expand_no_tab] | exact Hl | exact Hw].
+  - apply IH; [exact Hps' | apply notab_nil | apply ref_push_notab; assumption | exact Hw].
+  - cbn [tpl_ok] in Hp0. destruct Hp0 as [Hs Ha]. apply IH; [exact Hps' | | exact Hl |].
+    + apply notab_app; [exact Hcur|]. apply ph_post_notab; [exact Hs|].
+      pose proof (static_buf_notab c h Hc Ha) as Hb. destruct (p_key h); assumption.
+    + unfold wide_of. destruct (p_key h); cbn [wide_ok]; auto.
+Qed.
+
+(* what the history installed so far satisfies [op_ok]'s demands *)
+Definition rok (r : rbar) : Prop :=
+  glyphs_ok (r_gl r) /\ Forall tpl_ok (r_tpl r)
+  /\ match r_saved r with Some (_, g, t) => glyphs_ok g /\ Forall tpl_ok t | None => True end.
+
+Lemma forallb_notab (l : list text) : forallb (fun s => negb (has_tab s)) l = true -> Forall notab l.
+Proof.
+  intros H. apply Forall_forall. intros s Hs. apply has_tab_in.
+  rewrite forallb_forall in H. specialize (H s Hs). destruct (has_tab s); [discriminate | reflexivity].
+Qed.
+
+Lemma default_glyphs_ok : glyphs_ok default_glyphs.
+Proof. split; apply forallb_notab; vm_compute; reflexivity. Qed.
+
+Lemma rok_init : rok rbar_init.
+Proof.
+  split; [exact default_glyphs_ok|]. split; [| exact I].
+  unfold rbar_init, default_tpl. cbn [r_tpl]. repeat constructor.
+Qed.
+
+Lemma ref_lines_notab E r : env_ok E -> rok r -> Forall notab (ref_lines E r).
+Proof.
+  intros He [Hg [Ht _]]. unfold ref_lines.
+  assert (Hc : ctx_ok (ref_ctx E r)) by (split; [exact Hg | exact He]).
+  pose proof (ref_fmt_notab (ref_ctx E r) (expand (r_msg r) (r_tw r)) (expand (r_prefix r) (r_tw r)) Hc
+                (expand_no_tab _ _) (expand_no_tab _ _) (r_tpl r) [] [] WNone Ht notab_nil (Forall_nil _) I) as H.
+  destruct (ref_fmt (ref_ctx E r) (expand (r_msg r) (r_tw r)) (expand (r_prefix r) (r_tw r)) (r_tpl r) [] [] WNone)
+    as [[cur lines] w]. destruct H as [H1 [H2 H3]].
+  destruct cur as [|x cur]; [exact H2|].
+  apply ref_push_notab; try assumption. apply expand_no_tab.
+Qed.
+
+Lemma ref_render_notab E r : env_ok E -> rok r ->
+  rok (fst (ref_render E r)) /\ Forall notab (snd (ref_render E r)).
+Proof.
+  intros He Hr. unfold ref_render.
+  destruct (r_status r); cbn [fst snd]; try (split; [exact Hr | apply ref_lines_notab; assumption]).
+  split; [exact Hr | constructor].
+Qed.
+
+Lemma ref_step_notab E r o : env_ok E -> op_ok o -> rok r ->
+  rok (fst (ref_step E r o)) /\ out_notab (snd (ref_step E r o)).
+Proof.
+  intros He Ho Hr.
+  assert (Hdrawn : forall r', rok r' ->
+            rok (fst (let '(r'', l) := ref_render E r' in (r'', ODraw [] l)))
+            /\ out_notab (snd (let '(r'', l) := ref_render E r' in (r'', ODraw [] l)))).
+  { intros r' H'. destruct (ref_render_notab E r' He H') as [H1 H2].
+    destruct (ref_render E r') as [r'' l]. cbn [fst snd out_notab] in *. auto. }
+  pose proof Hr as [Hg [Ht Hs]].
+  destruct o as [n|n|keys g t|t| | |s|s|s|s|s|s|f| | |s| | ]; cbn [step ref_step op_ok] in *;
+    try (apply Hdrawn; exact Hr); try (split; [exact Hr | exact I]).
+  - (* SetStyleNew *) cbn [fst snd out_notab]. split; [| exact I]. destruct Ho as [Ho1 Ho2].
+    split; [exact Ho1 | split; [exact Ho2 | exact Hs]].
+  - (* SetStyleDerived *) cbn [fst snd out_notab]. split; [| exact I].
+    split; [exact Hg | split; [exact Ho | exact Hs]].
+  - (* SaveStyle *) cbn [fst snd out_notab]. split; [| exact I].
+    split; [exact Hg | split; [exact Ht | split; [exact Hg | exact Ht]]].
+  - (* RestoreStyle *)
+    destruct (r_saved r) as [[[k g] t]|] eqn:Er; cbn [fst snd out_notab]; [| split; [exact Hr | exact I]].
+    split; [| exact I]. unfold rok. cbn [r_gl r_tpl r_saved].
+    destruct Hs as [Hs1 Hs2]. split; [exact Hs1 | split; [exact Hs2 | split; [exact Hs1 | exact Hs2]]].
+  - (* Println *)
+    destruct (ref_render_notab E r He Hr) as [H1 H2].
+    destruct (ref_render E r) as [r' l]. cbn [fst snd out_notab] in *. auto.
+  - (* GetMessage *) cbn [fst snd out_notab]. split; [exact Hr | apply expand_no_tab].
+  - (* GetPrefix *) cbn [fst snd out_notab]. split; [exact Hr | apply expand_no_tab].
+Qed.
+
+Lemma ref_run_notab E ops : forall r, env_ok E -> Forall op_ok ops -> rok r ->
+  Forall out_notab (snd (ref_run E r ops)).
+Proof.
+  induction ops as [|o ops IH]; intros r He Hf Hr; cbn [ref_run]; [constructor|].
+  inversion Hf as [|? ? Ho Hrest]; subst.
+  destruct (ref_step_notab E r o He Ho Hr) as [H1 H2].
+  destruct (ref_step E r o) as [r1 x]. cbn [fst snd] in *. specialize (IH r1 He Hrest H1).
+  destruct (ref_run E r1 ops) as [r2 xs]. cbn [snd] in *. constructor; assumption.
+Qed.
+
+Theorem no_tab E ops : env_ok E -> Forall op_ok ops -> Forall out_notab (snd (run E bar_init ops)).
+Proof. intros He H. rewrite refines. apply ref_run_notab; [exact He | exact H | exact rok_init]. Qed.
 
 (** ** closed forms *)
-Lemma ref_run_app a : forall r b,
-  ref_run r (a ++ b) =
-  (fst (ref_run (fst (ref_run r a)) b), snd (ref_run r a) ++ snd (ref_run (fst (ref_run r a)) b)).
+Lemma ref_run_app E a : forall r b,
+  ref_run E r (a ++ b) =
+  (fst (ref_run E (fst (ref_run E r a)) b), snd (ref_run E r a) ++ snd (ref_run E (fst (ref_run E r a)) b)).
 Proof.
   induction a as [|o a IH]; intros r b; cbn [app ref_run fst snd].
-  - destruct (ref_run r b); reflexivity.
-  - destruct (ref_step r o) as [r1 x]. rewrite IH.
-    destruct (ref_run r1 a) as [r2 xs]. cbn [fst snd]. reflexivity.
+  - destruct (ref_run E r b); reflexivity.
+  - destruct (ref_step E r o) as [r1 x]. rewrite IH.
+    destruct (ref_run E r1 a) as [r2 xs]. cbn [fst snd]. reflexivity.
 Qed.
 
-Lemma ref_state_closed ops : forall r,
-  r_tw (fst (ref_run r ops)) = last_tw (r_tw r) ops
-  /\ r_msg (fst (ref_run r ops)) = last_msg (r_msg r) ops
-  /\ r_prefix (fst (ref_run r ops)) = last_prefix (r_prefix r) ops.
+Definition rproj (r : rbar) : N * text * text * finish := (r_tw r, r_msg r, r_prefix r, r_onfin r).
+
+Lemma ref_render_proj E r : rproj (fst (ref_render E r)) = rproj r.
+Proof. unfold ref_render. destruct (r_status r); reflexivity. Qed.
+
+Lemma ref_step_closed E r o :
+  rproj (fst (ref_step E r o))
+  = (last_tw (r_tw r) [o], last_msg (r_msg r) (r_onfin r) [o], last_prefix (r_prefix r) [o],
+     match o with WithFinish g => g | _ => r_onfin r end).
+Proof.
+  assert (Hd : forall t r', fst (let '(r'', l) := ref_render E r' in (r'', ODraw t l)) = fst (ref_render E r')).
+  { intros t r'. destruct (ref_render E r'); reflexivity. }
+  destruct o as [n|n|keys g t|t| | |s|s|s|s|s|s|f| | |s| | ]; cbn [ref_step last_tw last_msg last_prefix];
+    rewrite ?Hd, ?ref_render_proj; try reflexivity.
+  destruct (r_saved r) as [[[k g] t]|]; reflexivity.
+Qed.
+
+Lemma ref_state_closed E ops : forall r,
+  r_tw (fst (ref_run E r ops)) = last_tw (r_tw r) ops
+  /\ r_msg (fst (ref_run E r ops)) = last_msg (r_msg r) (r_onfin r) ops
+  /\ r_prefix (fst (ref_run E r ops)) = last_prefix (r_prefix r) ops.
 Proof.
   induction ops as [|o ops IH]; intros r; cbn [ref_run]; [auto|].
-  destruct (ref_step r o) as [r1 x] eqn:E. specialize (IH r1).
-  destruct (ref_run r1 ops) as [r2 xs]. cbn [fst] in *.
-  assert (H : r_tw r1 = last_tw (r_tw r) [o] /\ r_msg r1 = last_msg (r_msg r) [o]
-              /\ r_prefix r1 = last_prefix (r_prefix r) [o]).
-  { destruct o; cbn [ref_step] in E; try (inversion E; subst; cbn; auto; fail).
-    destruct (r_saved r) as [[k t]|]; inversion E; subst; cbn; auto. }
-  destruct H as [H1 [H2 H3]]. destruct IH as [I1 [I2 I3]].
-  rewrite I1, I2, I3, H1, H2, H3. destruct o; cbn; auto.
+  pose proof (ref_step_closed E r o) as H.
+  destruct (ref_step E r o) as [r1 x] eqn:E1. specialize (IH r1).
+  destruct (ref_run E r1 ops) as [r2 xs]. cbn [fst] in *.
+  unfold rproj in H. inversion H as [[H1 H2 H3 H4]]. clear H.
+  destruct IH as [I1 [I2 I3]].
+  rewrite I1, I2, I3, H1, H2, H3, H4. destruct o; cbn [last_tw last_msg last_prefix]; auto.
 Qed.
 
 (** message() / prefix() after any history: the last text given, expanded with the last width *)
-Theorem getters ops :
-  snd (run bar_init (ops ++ [GetMessage]))
-  = snd (run bar_init ops) ++ [OGot (expand (last_msg [] ops) (last_tw DEFAULT_TAB_WIDTH ops))]
-  /\ snd (run bar_init (ops ++ [GetPrefix]))
-  = snd (run bar_init ops) ++ [OGot (expand (last_prefix [] ops) (last_tw DEFAULT_TAB_WIDTH ops))].
+Theorem getters E ops :
+  snd (run E bar_init (ops ++ [GetMessage]))
+  = snd (run E bar_init ops) ++ [OGot (expand (last_msg [] FAndClear ops) (last_tw DEFAULT_TAB_WIDTH ops))]
+  /\ snd (run E bar_init (ops ++ [GetPrefix]))
+  = snd (run E bar_init ops) ++ [OGot (expand (last_prefix [] ops) (last_tw DEFAULT_TAB_WIDTH ops))].
 Proof.
   rewrite !refines, !ref_run_app. cbn [snd ref_run ref_step].
-  destruct (ref_state_closed ops rbar_init) as [H1 [H2 H3]].
-  cbn [rbar_init r_tw r_msg r_prefix] in H1, H2, H3. rewrite H1, H2, H3. split; reflexivity.
+  destruct (ref_state_closed E ops rbar_init) as [H1 [H2 H3]].
+  cbn [rbar_init r_tw r_msg r_prefix r_onfin] in H1, H2, H3. rewrite H1, H2, H3. split; reflexivity.
 Qed.
 
 (** a draw after any history shows every text expanded from its original with the current
     width: it is the reference rendering of the state the history defines *)
-Theorem draw_consistent ops :
-  let r := fst (ref_run rbar_init ops) in
-  snd (run bar_init (ops ++ [Tick])) = snd (run bar_init ops) ++ [ODraw (ref_render r)]
+Theorem draw_consistent E ops :
+  let r := fst (ref_run E rbar_init ops) in
+  snd (run E bar_init (ops ++ [Tick]))
+  = snd (run E bar_init ops) ++ [ODraw [] (snd (ref_render E (rbar_tick r)))]
   /\ r_tw r = last_tw DEFAULT_TAB_WIDTH ops
-  /\ r_msg r = last_msg [] ops
+  /\ r_msg r = last_msg [] FAndClear ops
   /\ r_prefix r = last_prefix [] ops.
 Proof.
   cbn zeta. rewrite !refines, !ref_run_app. cbn [snd ref_run ref_step].
-  destruct (ref_state_closed ops rbar_init) as [H1 [H2 H3]].
-  cbn [rbar_init r_tw r_msg r_prefix] in H1, H2, H3.
-  split; [| auto]. destruct (fst (ref_run rbar_init ops)); reflexivity.
+  destruct (ref_state_closed E ops rbar_init) as [H1 [H2 H3]].
+  cbn [rbar_init r_tw r_msg r_prefix r_onfin] in H1, H2, H3.
+  split; [| auto]. destruct (ref_render E (rbar_tick (fst (ref_run E rbar_init ops)))); reflexivity.
 Qed.
 
 (** the width given to the expansion: every TAB becomes exactly [w] spaces, nothing else changes *)
-Fixpoint ntabs (s : text) : nat :=
-  match s with [] => 0%nat | c :: r => ((if N.eqb c TAB then 1 else 0) + ntabs r)%nat end.
-
 Lemma expand_length s w :
   (length (expand s w) + ntabs s = length s + ntabs s * N.to_nat w)%nat.
 Proof.
